@@ -401,6 +401,15 @@ func Run(tier string) int {
 		budget = 14 * time.Minute
 	}
 	deadline := time.Now().Add(budget)
+	famBudget := 40 * time.Second
+	if tier == "thorough" {
+		famBudget = 4 * time.Minute
+	}
+	famLayouts, famSearches, famComplete := checkLayoutFamily(rep, tier, time.Now().Add(famBudget))
+	if os.Getenv("VERIF_C02_ONLY_FAMILY") != "" {
+		fmt.Println("layout family:", famLayouts, famSearches, famComplete)
+		return rep.Finish()
+	}
 	pop := population()
 	var worlds []*world
 	for li, l := range layouts(pop, tier) {
@@ -506,7 +515,14 @@ func Run(tier string) int {
 	if !sqComplete {
 		timedOut = 1
 	}
+	searches += famSearches
+	if !famComplete {
+		timedOut = 1
+	}
 	cv := rep.Coverage
+	cv["layout_family_stacks"] = famLayouts
+	cv["layout_family_searches"] = famSearches
+	cv["layout_family_rule"] = "every way of spreading versions of 5 stream ids over a stack of up to 3 index files (thorough: 6 ids over 3 files and 4 ids over 4 files) (each id in a non-empty subset of the files, the newest file having it holds the visible version), 12 queries that tell the versions apart x sorts x pages"
 	cv["subquery_searches"] = sqSearches
 	cv["subquery_cases_nontrivial"] = sqNontrivial
 	cv["subquery_refusals_by_engine"] = sqRefusals
